@@ -1,5 +1,6 @@
 """Shared by C12 and C18: the abstract mass environment sent to the Lean drivers, generators, canonicalisers."""
 import copy
+import os
 import re
 from fractions import Fraction  # noqa: F401 (re-exported)
 
@@ -316,3 +317,37 @@ class LineCoverage:
                 per.setdefault(name, [])
                 per[name] = sorted(set(per[name]) | set(miss))
         return {'available': True, 'code_lines': tot, 'executed': hit, 'uncovered': per}
+
+
+MY_LEAN_FILES = ('StaticMods', 'AbsMass', 'CondenseMass', 'CondenseLabel', 'DecText', 'ConcreteEnv', 'ConcreteBridge',
+                 'ConcreteKeys', 'ConcreteLabel', 'C12', 'C18')
+
+
+def optional_module(chk, mod, why):
+    """build + audit a Props module that rests on another package's lemma file. If it does not build and every error sits in
+    files of other packages, the module is reported as not built (a note, its theorems are not counted); an error in one of
+    this package's files is a broken theorem like any other."""
+    import fcntl
+    import re
+    import subprocess
+    from .. import core
+    cmd = ['lake', 'build', mod]
+    with open(os.path.join(core.LEAN, '.lake', 'verif.lock'), 'w') as lk:
+        fcntl.flock(lk, fcntl.LOCK_EX)
+        p = subprocess.run(cmd, cwd=core.LEAN, capture_output=True, text=True)
+    path = os.path.join(core.LEAN, mod.replace('.', '/') + '.lean')
+    if p.returncode == 0:
+        chk.checker_cmds.append('cd lean && ' + ' '.join(cmd))
+        chk.obligations += core.theorems_in(path)
+        chk._audit([mod])
+        return True
+    out = p.stdout + p.stderr
+    files = set(re.findall(r'error: (\S+?\.lean):\d+', out))
+    mine = [f for f in files if any(os.path.basename(f).startswith(n) for n in MY_LEAN_FILES)]
+    if mine or not files:
+        chk.lean_problems.append(f'{mod} does not build: {sorted(files) or out[-400:]}')
+        chk.obligations += core.theorems_in(path)
+        return False
+    chk.notes.append(f'{mod} NOT BUILT in this run ({why}): build errors only in files of other packages {sorted(files)}; '
+                     f'its theorems ({", ".join(core.theorems_in(path))}) are not counted')
+    return False
